@@ -448,16 +448,15 @@ Config0(name) ==
                                       \* and without the approval; the sibling refusals of an approval (a different
                                       \* invoice / a keysend for an approved hash, an expired invoice); the orphan
                                       \* pruning of a heartbeat and a restart in between; "velx": the window passing
-                                      \* (Tick: the declined approval is then granted), preimages, a third channel
-                                      \* content
+                                      \* (Tick: the declined approval is then granted), an amountless keysend
          [chans |-> {"c1", "c2"}, hashes |-> {"h1", "h2"}, vlim |-> 1,
           reqs |-> ChanReqs("c1", {<<>>, <<O("h1", 1)>>, <<O("h2", 1)>>}, FALSE)
-              \cup ChanReqs("c2", {<<>>, <<O("h2", 1)>>} \cup (IF name = "velx" THEN {<<O("h1", 1), O("h2", 1)>>} ELSE {}), FALSE)
+              \cup ChanReqs("c2", {<<>>, <<O("h2", 1)>>}, FALSE)
               \cup {[op |-> "AddInvoice", h |-> "h1", a |-> 1], [op |-> "AddInvoice", h |-> "h2", a |-> 1],
                     [op |-> "AddKeysend", h |-> "h2", a |-> 1], [op |-> "ExpiredInvoice", h |-> "h2", a |-> 1],
                     [op |-> "Heartbeat"], [op |-> "Restart"]}
               \cup (IF name = "velx" THEN {[op |-> "AddInvoice", h |-> "h1", a |-> 2], [op |-> "AddKeysend", h |-> "h1", a |-> 0],
-                                           [op |-> "Fulfill", h |-> "h2"], [op |-> "Tick"]} ELSE {})]
+                                           [op |-> "Tick"]} ELSE {})]
     [] OTHER -> [chans |-> {}, hashes |-> {}, reqs |-> {}]
 Config(name) == LET c == Config0(name) IN
   [chans |-> c.chans, hashes |-> c.hashes, reqs |-> c.reqs, vlim |-> IF "vlim" \in DOMAIN c THEN c.vlim ELSE 0]
